@@ -223,6 +223,23 @@ def gen_prange():
            'Definition triangles_callee_writes : list (string * string * string) := [%s].' %
            '; '.join('(%s, %s, %s)' % (_cstr(a), _cstr(b), _cstr(c)) for a, b, c in callee_writes),
            'Definition triangles_callee_nogil : bool := %s.' % ('true' if callee_nogil else 'false')]
+    # front ends: which matrix is oriented into the DAG handed to the kernel (count_triangles) and which degrees enter the number
+    # of connected triples (get_clustering_coefficient): the right-hand sides of `dag = ...` and `degrees = ...`, spaces removed
+    fronts = {}
+    for fn, var in (('count_triangles', 'dag'), ('get_clustering_coefficient', 'degrees')):
+        block, _hdr = _function_block(tri_lines, fn, 'sknetwork/topology/triangles.pyx')
+        rhs = []
+        for (ln, raw) in _body_without_docstring(block):
+            line = raw.split('#')[0]
+            m = re.match(r'^\s*%s\s*=(?!=)\s*(.*)$' % var, line)
+            if m:
+                rhs.append(re.sub(r'\s+', '', m.group(1)))
+        if not rhs:
+            raise TranslateError('%s: no assignment of %s' % (fn, var))
+        fronts[fn] = rhs
+    out.append('Definition triangles_dag_sources : list string := [%s].' % '; '.join(_cstr(x) for x in fronts['count_triangles']))
+    out.append('Definition coefficient_degree_sources : list string := [%s].' %
+               '; '.join(_cstr(x.replace(chr(39), '`')) for x in fronts['get_clustering_coefficient']))
     return '\n'.join(out) + '\n'
 
 
